@@ -109,6 +109,10 @@ pub fn edge_nets(k: u16) -> Result<Vec<Arc<Bound>>, String> {
         ("lin4", "a -> b; b -> c; c -> d; d -| a; $a: !d; $b: a; $c: b; $d: c"),
         ("imp4", "a -?? d; b -?? d; c -?? d; $a: a; a -> a; $b: !c; c -| b; $c: b; b -> c"),
         ("sink3", "a -> b; a -> c; a -| a; $a: !a; $b: a; $c: a & c; c -> c"),
+        // multi-stability in one colour: a steady state (c = 1) next to a cyclic attractor (c = 0)
+        ("mul3", "b -?? a; c -?? a; a -?? b; c -?? b; c -?? c; $a: b & !c; $b: (!a & !c) | c; $c: c"),
+        // the same with an unknown function: colours with a steady state only, a cycle only, and both
+        ("mul2", "a -?? a; b -?? a; a -?? b; b -?? b; $a: (b & !a) | (a & k(b)); $b: !a | (a & b)"),
     ];
     let mut out = vec![];
     for (name, text) in specs {
